@@ -1,7 +1,7 @@
 (* C03 — every emitted tag mirrors the bytes at its reported offset; tags tile the stream.  Statements only
    (proofs in Proofs/PureProofs.v and Proofs/Tiling.v). *)
 From Ebml Require Import Base Tools Spec Reader Pure Proofs.Tactics Proofs.ReaderIO Proofs.Refine Proofs.PureProofs
-  Proofs.RollUp Proofs.Nesting Proofs.BufferSim Proofs.Tiling Proofs.Extents Proofs.AuditNesting.
+  Proofs.RollUp Proofs.Nesting Proofs.BufferSim Proofs.Tiling Proofs.Extents Proofs.AuditNesting Proofs.BufferedNesting.
 
 (* One tag (every configuration, every parser state, every remaining input): if reading a tag succeeds then
    - the offset recorded for the item is the cursor position before the tag,
@@ -169,6 +169,42 @@ Theorem C03_buffered_tiles_and_offsets_short : forall c input,
   exists U, Unr (out_items outs) U /\ Tiled (c_sp c) 0 input (ne_q U) /\
             exists base, zero_base base /\ chk_off base (all_q U) <> None.
 Proof. exact buffered_run_tiles_and_offsets_short. Qed.
+
+(* The base of C03_buffered_tiles_and_offsets pinned, as in C03_end_offsets_rooted / C03_end_offsets_pinned (proofs in
+   Proofs/BufferedNesting.v).  Unknown ids and hierarchy errors not tolerated, ANY buffered set, every input; the drain is clean
+   (items and the final None only) and the drain with nothing buffered is not cut at its item limit.  Rooted form: if the first
+   item of the drain is not an End (a Start, an element or a Full item) and its id is declared with the empty path, there is an
+   unrolling U of the items of the drain whose non-End items tile the input from offset 0 and whose End offsets are matched from
+   the EMPTY base. *)
+Theorem C03_buffered_tiles_and_offsets_rooted : forall c input,
+  c_allow_id c = false -> c_allow_hier c = false ->
+  let outs := p_run c input [RAll] in
+  (forall o, In o outs -> match o with OItem _ _ | ONone => True | _ => False end) ->
+  ~ In OLimit (p_run (unbuffered c) input [RAll]) ->
+  forall y rest, out_tags outs = y :: rest -> (forall id, y <> TEnd id) -> get_path (c_sp c) (tag_id y) = [] ->
+  exists U, Unr (out_items outs) U /\ Tiled (c_sp c) 0 input (ne_q U) /\ chk_off [] (all_q U) <> None.
+Proof. exact buffered_clean_tiles_offsets_rooted. Qed.
+
+(* the same with the side condition "the unrolled tag sequence is shorter than the item limit 4 * |input| + 64" *)
+Theorem C03_buffered_tiles_and_offsets_rooted_short : forall c input,
+  c_allow_id c = false -> c_allow_hier c = false ->
+  let outs := p_run c input [RAll] in
+  (forall o, In o outs -> match o with OItem _ _ | ONone => True | _ => False end) ->
+  (length (flat (out_tags outs)) < 4 * length input + 64)%nat ->
+  forall y rest, out_tags outs = y :: rest -> (forall id, y <> TEnd id) -> get_path (c_sp c) (tag_id y) = [] ->
+  exists U, Unr (out_items outs) U /\ Tiled (c_sp c) 0 input (ne_q U) /\ chk_off [] (all_q U) <> None.
+Proof. exact buffered_clean_tiles_offsets_rooted_short. Qed.
+
+(* General form: the End offsets are matched from [zbase base] for the [base] that [pinned_base] determines from the tags of the
+   unrolling (Props/C06.v, C06_buffered_clean_pinned_all). *)
+Theorem C03_buffered_tiles_and_offsets_pinned : forall c input,
+  c_allow_id c = false -> c_allow_hier c = false ->
+  let outs := p_run c input [RAll] in
+  (forall o, In o outs -> match o with OItem _ _ | ONone => True | _ => False end) ->
+  ~ In OLimit (p_run (unbuffered c) input [RAll]) ->
+  exists U base, Unr (out_items outs) U /\ Tiled (c_sp c) 0 input (ne_q U) /\
+    pinned_base (c_sp c) (qtags U) base /\ chk_off (zbase base) (all_q U) <> None.
+Proof. exact buffered_clean_tiles_offsets_pinned. Qed.
 
 (* PARTIAL: the run-level statements are proved for the abstract reader (and, by C03_buffered_same, for the buffered machine on
    sources that never pause or fail).  The tiling is stated up to the first error / try_recover call of a run; what follows
